@@ -172,7 +172,17 @@ def elems_fn(sort):
     level (keeps refutation models constructible); elems_of() decomposes
     concatenations, units and empties structurally, which is all the
     obligations need.  Weaker than the recursive definition, hence sound."""
-    return Z.func('elems<%s>' % sort, Z.SeqSort(sort), Z.SetSort(sort))
+    f = Z.func('elems<%s>' % sort, Z.SeqSort(sort), Z.SetSort(sort))
+    key = 'elems-axioms<%s>' % sort
+    if key not in Z.AXIOMS._names:
+        a = z3.Const('el!a<%s>' % sort, Z.SeqSort(sort))
+        b = z3.Const('el!b<%s>' % sort, Z.SeqSort(sort))
+        x = z3.Const('el!x<%s>' % sort, sort)
+        Z.AXIOMS.add(key, z3.And(
+            z3.ForAll([a, b], f(z3.Concat(a, b)) == z3.SetUnion(f(a), f(b)), patterns=[f(z3.Concat(a, b))]),
+            z3.ForAll([x], f(z3.Unit(x)) == z3.SetAdd(Z.empty_set(sort), x), patterns=[f(z3.Unit(x))]),
+            f(Z.empty_seq(sort)) == Z.empty_set(sort)))
+    return f
 
 
 def elems_of(z, sort=None):
@@ -889,8 +899,13 @@ def setitem(I, ctx, fr, base, idx, val, node):
         if not ctx.branch(Z.And(iz < n, iz >= -n)):
             I.raise_exc(ctx, 'IndexError', 'list assignment index out of range', node)
         pos = Z.simp(z3.If(iz >= 0, iz, n + iz))
-        h.z = z3.Concat(z3.Extract(h.z, 0, pos), z3.Unit(h.et.to_z(val, ctx)),
-                        z3.Extract(h.z, pos + 1, n - pos - 1))
+        # decomposition form: old == pre ++ [old_x] ++ post, |pre| == pos; new == pre ++ [val] ++ post
+        pre = Z.fresh('set_pre', h.z.sort())
+        post = Z.fresh('set_post', h.z.sort())
+        oldx = Z.fresh('set_old', h.et.zsort)
+        ctx.assume(h.z == z3.Concat(pre, z3.Unit(oldx), post))
+        ctx.assume(z3.Length(pre) == pos)
+        h.z = z3.Concat(pre, z3.Unit(h.et.to_z(val, ctx)), post)
         return
     if isinstance(base, VObj):
         return I.engine.opaque_setitem(ctx, base, idx, val, node)
